@@ -80,6 +80,7 @@ type vEstEnv struct {
 
 func (r *vEstRC) Dial(ctx context.Context) error {
 	verifYield()
+	verifJitter()
 	r.dials++
 	return nil
 }
@@ -88,6 +89,7 @@ func (r *vEstRC) Addr() string   { return r.addr }
 func (r *vEstRC) String() string { return r.addr }
 func (r *vEstRC) QueueRPC(c hrpc.Call) {
 	verifYield()
+	verifJitter()
 	r.env.probes++
 	c.ResultChan() <- hrpc.RPCResult{} // the probe is answered: region online
 }
